@@ -53,6 +53,7 @@ type Obligation struct {
 	Src       string
 	Pos       string
 	ExpectSat bool
+	KeepQuant bool // ExpectSat query that keeps the quantified facts (consistency check): only "unsat" is a failure
 	Props     []string
 	Watch     []WatchItem
 	sc        *Script
@@ -635,6 +636,15 @@ func (e *Enc) execFunc(fr *Frame, st *State, reach Term) ([]Val, *State, Term) {
 				}
 				rets = append(rets, retRec{rb, vs, cur})
 				outState[b] = cur
+				if fr == fr.top && fr.contract != nil && rb != "false" && (e.w.Thorough || (!fr.contract.NoNilChecks && !fr.contract.WriteFrame)) {
+					// consistency: the assumptions collected along the way to this return (callee
+					// contracts, trusted specs, axioms - including the quantified ones) must not
+					// contradict each other; a contradiction would make everything below it provable
+					fr.callN["consist"]++
+					c := e.ob(fr, "consistency", fmt.Sprintf("consist#%d", fr.callN["consist"]), rb, "false", "assumptions on the way to this return are consistent", x.Pos())
+					c.ExpectSat = true
+					c.KeepQuant = true
+				}
 			case *ssa.Panic:
 				if e.checkSafe {
 					e.ob(fr, "safety.panic", e.nextName(fr, "safety.panic"), rb, "false", "explicit panic unreachable", x.Pos())
